@@ -134,10 +134,12 @@ PAY_ENDINGS = ["complete", "failed_noparts", "failed_after_partfail", "pending_t
                "pending_slow_done", "pending_slow_fail", "error_slow_done", "warn_slow_fail"]
 NEND = len(PAY_ENDINGS)
 
-def pay_ending(r, kind):
-    """Events from the moment the pay call is outstanding (unprocessed) to its fate."""
+FAIL_CODES = [202, 203, 204, 208, 209]
+
+def pay_ending(r, kind, code0=None):
+    """Events from the moment the pay call is outstanding (unprocessed) to its fate. code0: failure code of the first part that fails."""
     ev = [{"e": "proc_next"}]           # the node starts the pay command
-    codes = [202, 203, 204, 208, 209]
+    codes = FAIL_CODES
     if kind == "complete":
         ev += [{"e": "newpart_next"}, {"e": "part_next", "st": "done"}, {"e": "payfin_next", "out": "complete"}]
     elif kind == "failed_noparts":
@@ -163,18 +165,19 @@ def pay_ending(r, kind):
     elif kind == "two_parts_one_done":
         ev += [{"e": "newpart_next"}, {"e": "newpart_next"}, {"e": "payfin_next", "out": "pending"}]
         tail = [{"e": "drain_step"}] * 10
-        tail.insert(r.below(8), {"e": "part_next", "st": "fail", "code": r.choice(codes), "nth": r.below(2)})
+        tail.insert(r.below(8), {"e": "part_next", "st": "fail", "code": code0 or r.choice(codes), "nth": r.below(2)})
         tail.insert(r.below(9), {"e": "part_next", "st": "done"})
         ev += tail
     elif kind == "two_parts_both_fail":
         ev += [{"e": "newpart_next"}, {"e": "newpart_next"}, {"e": "payfin_next", "out": r.choice(["pending", "failed_warn", "error"])}]
         tail = [{"e": "drain_step"}] * 10
-        tail.insert(r.below(8), {"e": "part_next", "st": "fail", "code": r.choice(codes)})
-        tail.insert(r.below(9), {"e": "part_next", "st": "fail", "code": r.choice(codes)})
+        k0 = r.below(8)
+        tail.insert(k0, {"e": "part_next", "st": "fail", "code": code0 or r.choice(codes)})
+        tail.insert(k0 + 1 + r.below(9 - k0), {"e": "part_next", "st": "fail", "code": r.choice(codes)})
         ev += tail
     return ev
 
-def story_case(r, ending=None, npieces=None, reject=None, nhash=1, heights=True, cfg=None, amount=None, second=False, burst=False, amountless=False):
+def story_case(r, ending=None, npieces=None, reject=None, nhash=1, heights=True, cfg=None, amount=None, second=False, burst=False, amountless=False, code0=None):
     """One payment from first HTLC to its fate. reject: None | (kind, position)"""
     cfg = cfg or mk_cfg(r)
     b = CaseBuilder(r, cfg, nhash)
@@ -226,7 +229,7 @@ def story_case(r, ending=None, npieces=None, reject=None, nhash=1, heights=True,
             if heights and r.chance(1, 4): script.append({"e": "height", "v": r.below(2500)})
             if r.chance(1, 5): script.append({"e": "tick", "ms": 1000 * (1 + r.below(5))})
     script.append({"e": "drain"})
-    script += pay_ending(r, ending or r.choice(PAY_ENDINGS))
+    script += pay_ending(r, ending or r.choice(PAY_ENDINGS), code0)
     script.append({"e": "drain"})
     if second:
         # a second, fully funded set for the same invoice arrives while/after the first lifecycle finishes its bookkeeping
